@@ -189,6 +189,38 @@ pub fn c12(g: &mut Gen) {
             g.push(format!("net {} validate {} {} {} 0", net.token(), n, s, hx(tol)), Tol::Tight, &format!("validate/{}/{}", n, net.obj), true);
         }
     }
+    // the accuracy rule is chosen by the output layer's activation alone: a soft-max output scores arg-max agreement under
+    // EVERY objective; targets whose components are all negative, all zero or all subnormal still have an arg-max
+    for (oi, obj) in objs.iter().enumerate() {
+        let (mut net, out) = random_net(g, &cfg);
+        if let Some(Build::Layer(InnerSpec::Dense { act, .. })) = net.builds.last_mut() { *act = "softmax".into(); }
+        net.obj = obj.to_string();
+        for n in [1usize, 5, 65] {
+            if !g.ctx.thorough() && n == 65 && oi % 2 == 1 { continue; }
+            let s = samples_tok(g, &net, &out, n);
+            g.push(format!("net {} validate {} {} {} 0", net.token(), n, s, hx(0.05)), Tol::Tight, &format!("validate/softmax-under-{}/{}", obj, n), true);
+        }
+        // hand-made targets
+        let special: Vec<Vec<f32>> = vec![vec![-3.0, -1.0, -2.0, -5.0], vec![-1.0, -1.0, -0.5, -7.0], vec![0.0, 0.0, 0.0, 0.0],
+            vec![0.0, 1e-40, 0.0, 0.0], vec![3e-45, 1e-45, 7e-45, 2e-45], vec![0.0, 0.0, 1.1754942e-38, 0.0], vec![-0.0, 0.0, -0.0, 0.0],
+            vec![-1e-40, -3e-40, -2e-40, -1e-45]];
+        if *obj == "mse" || *obj == "mae" || *obj == "rmse" || g.ctx.thorough() {
+            let mut v = Vec::new();
+            for t in &special {
+                let x = input_for(g, &net.input);
+                v.push(format!("{} {}", qt(&x), qt(&Tensor::single(t.clone()))));
+            }
+            g.push(format!("net {} validate {} {} {} 0", net.token(), special.len(), v.join(" "), hx(0.05)), Tol::Tight,
+                &format!("validate/softmax-unusual-targets/{}", obj), true);
+            for t in &special {
+                let x = input_for(g, &net.input);
+                g.push(format!("net {} validate 1 {} {} {} 0", net.token(), qt(&x), qt(&Tensor::single(t.clone())), hx(0.05)), Tol::Tight,
+                    &format!("validate/softmax-unusual-target/{}", obj), true);
+            }
+        }
+    }
+    // validate / predict after a `learn` that stopped early (and one that ran to the end) on networks with dropout
+    early_stopped_dropout_learn(g, "after-learn");
     // the tolerance rule at its boundary: identity networks (prediction = input exactly), differences exactly equal to,
     // one unit in the last place below and above the tolerance, on both sides of the target, single and multi output
     {
@@ -390,6 +422,36 @@ pub fn c09(g: &mut Gen) {
         for (thr, script) in [(2usize, vec![1.0f32, 2.0, 3.0, 4.0, 5.0, 6.0]), (3, vec![3.0, 1.0, 2.0, 3.0, 4.0, 5.0]), (1, vec![1.0, 1.0, 1.0, 1.0])] {
             g.push(format!("net {} learn 4 {} 1 3 {} {} 2 {} {} {}", net.token(), s, v, thr, script.len(), script.len(), q1(&script)),
                 Tol::Loose, &format!("dense-x{}/learn-early-stop", depth), true);
+        }
+        // `learn` entered with the flags already set (an interrupted earlier run, a caller that set them): it still
+        // returns with every flag off
+        g.push(format!("net {} learnon 4 {} 1 3 {} 5 2 3 0", net.token(), s, v), Tol::Loose, &format!("dense-x{}/learn-entered-with-flags-on", depth), true);
+        g.push(format!("net {} learnon 4 {} 0 2 2 0", net.token(), s), Tol::Loose, &format!("dense-x{}/learn-entered-with-flags-on", depth), true);
+        g.push(format!("net {} learnon 4 {} 1 3 {} 2 2 6 6 {}", net.token(), s, v, q1(&[1.0f32, 2.0, 3.0, 4.0, 5.0, 6.0])), Tol::Loose,
+            &format!("dense-x{}/learn-entered-with-flags-on", depth), true);
+    }
+    // the dropout rate at its boundaries (1, one unit in the last place below 1, 0): outside training the rate of a layer
+    // is never looked at, whatever the layer kind
+    for (ri, rate) in [1.0f32, f32::from_bits(1.0f32.to_bits() - 1), 0.0].iter().enumerate() {
+        for kind in 0..3usize {
+            let c = ArchCfg { dropout: false, ..cfg.clone() };
+            let (first, count): (InnerSpec, usize) = match kind {
+                0 => (InnerSpec::Conv { filters: 2, act: "tanh".into(), k: (2, 2), s: (1, 1), p: (0, 0), d: (1, 1), dropout: Some(*rate),
+                    ks: (0..2).map(|_| weights(g, &Shape::Triple(1, 2, 2), 0.5)).collect() }, 2 * 2 * 2),
+                1 => (InnerSpec::Deconv { filters: 1, act: "sigmoid".into(), k: (2, 2), s: (1, 1), p: (0, 0), dropout: Some(*rate),
+                    ks: vec![weights(g, &Shape::Triple(1, 2, 2), 0.5)] }, 4 * 4),
+                _ => {
+                    let mut d = dense_spec(g, &c, 9, 4, "tanh", true);
+                    if let InnerSpec::Dense { dropout, .. } = &mut d { *dropout = Some(*rate); }
+                    (d, 4)
+                }
+            };
+            let builds = vec![Build::Layer(first), Build::Layer(dense_spec(g, &c, count, 2, "tanh", true))];
+            let net = NetSpec { input: if kind == 2 { Shape::Single(9) } else { Shape::Triple(1, 3, 3) }, builds, skipacc: "add".into(), loopacc: "mean".into(),
+                opt: Some(OptSpec::Sgd(0.05, None)), obj: "mse".into(), clamp: None };
+            let s = samples_tok(g, &net, &Sh::Flat(2), 3);
+            g.push(format!("net {} validate 3 {} {} 0", net.token(), s, hx(0.1)), Tol::Tight, &format!("rate-boundary{}/kind{}/validate", ri, kind), true);
+            g.push(format!("net {} validate 3 {} {} 1", net.token(), s, hx(0.1)), Tol::Tight, &format!("rate-boundary{}/kind{}/validate-while-training", ri, kind), true);
         }
     }
     // every top-level layer kind with dropout (dense, convolution, deconvolution), alone and after one another:
@@ -863,6 +925,64 @@ pub fn c16(g: &mut Gen) {
             g.push(format!("net {} backward {} {}", net2.token(), qt(&x2), qt(&t)), Tol::Tight, "reshape/skip-gradient", true);
         }
     }
+    // a connection from a layer to itself together with connections from the same layer to later ones (the source adds
+    // its own processed-input gradient and those of the later targets, each once, whatever order the table is walked in:
+    // the table is a hash map, so every network instance may walk it differently — several instances each)
+    for seq in [vec![(1usize, 1usize), (1, 3)], vec![(1, 3), (1, 1)], vec![(0, 0), (0, 2)], vec![(1, 1), (1, 2), (1, 3)], vec![(2, 2), (2, 3), (0, 1)]] {
+        for _ in 0..g.n(6, 16) {
+            let (mut net, out) = skip_net(g, &cfg, 4, 4, false);
+            for (a, b) in &seq { net.builds.push(Build::Connect(*a, *b)); }
+            let x = input_for(g, &net.input);
+            g.push(format!("net {} predict {}", net.token(), qt(&x)), Tol::Tight, "self-and-later/skip-forward", true);
+            let t = target_for(g, &out, "mse");
+            g.push(format!("net {} backward {} {}", net.token(), qt(&x), qt(&t)), Tol::Tight, "self-and-later/skip-gradient", true);
+        }
+    }
+    // spatial source and spatial target of different extents but the same element count (2x3x2 into 1x3x4 and back):
+    // the source is re-arranged to the target's extents, row-major
+    for acc in ACCS.iter() {
+        let narrow_to_wide = NetSpec { input: Shape::Triple(2, 3, 2), builds: vec![
+            Build::Layer(InnerSpec::Deconv { filters: 1, act: "tanh".into(), k: (1, 3), s: (1, 1), p: (0, 0), dropout: None, ks: vec![weights(g, &Shape::Triple(2, 1, 3), 0.4)] }),
+            Build::Layer(InnerSpec::Conv { filters: 1, act: "linear".into(), k: (1, 1), s: (1, 1), p: (0, 0), d: (1, 1), dropout: None, ks: vec![weights(g, &Shape::Triple(1, 1, 1), 0.9)] }),
+            Build::Layer(dense_spec(g, &cfg, 12, 2, "tanh", true)), Build::Connect(0, 1)],
+            skipacc: acc.to_string(), loopacc: "mean".into(), opt: None, obj: "mse".into(), clamp: None };
+        let wide_to_narrow = NetSpec { input: Shape::Triple(1, 3, 4), builds: vec![
+            Build::Layer(InnerSpec::Conv { filters: 2, act: "tanh".into(), k: (1, 3), s: (1, 1), p: (0, 0), d: (1, 1), dropout: None,
+                ks: (0..2).map(|_| weights(g, &Shape::Triple(1, 1, 3), 0.4)).collect() }),
+            Build::Layer(InnerSpec::Conv { filters: 2, act: "linear".into(), k: (1, 1), s: (1, 1), p: (0, 0), d: (1, 1), dropout: None,
+                ks: (0..2).map(|_| weights(g, &Shape::Triple(2, 1, 1), 0.9)).collect() }),
+            Build::Layer(dense_spec(g, &cfg, 12, 2, "tanh", true)), Build::Connect(0, 1)],
+            skipacc: acc.to_string(), loopacc: "mean".into(), opt: None, obj: "mse".into(), clamp: None };
+        for (ni, net) in [narrow_to_wide, wide_to_narrow].iter().enumerate() {
+            let x = input_for(g, &net.input);
+            g.push(format!("net {} predict {}", net.token(), qt(&x)), Tol::Tight, &format!("spatial-rearranged{}/{}", ni, acc), true);
+            if *acc == "add" {
+                let t = target_for(g, &Sh::Flat(2), "mse");
+                g.push(format!("net {} backward {} {}", net.token(), qt(&x), qt(&t)), Tol::Tight, "skip-gradient/spatial-rearranged", true);
+            }
+        }
+    }
+    // the accumulation at the ends of the scale (subnormal operands, operands next to the smallest normal number, operands
+    // whose sum overflows): two linear layers with diagonal weights, the second one the target of a connection from the first
+    {
+        let diag = |d: &[f32]| -> InnerSpec {
+            let n = d.len();
+            InnerSpec::Dense { out: n, act: "linear".into(), bias: false, dropout: None,
+                w: Tensor::double((0..n).map(|i| (0..n).map(|j| if i == j { d[i] } else { 0.0 }).collect()).collect()), b: None }
+        };
+        let u = f32::from_bits(1);
+        let inputs: Vec<Vec<f32>> = vec![vec![u, 3.0 * u, 6.0 * u], vec![f32::MIN_POSITIVE, f32::from_bits(f32::MIN_POSITIVE.to_bits() + 1), 5.0 * u],
+            vec![3.0e38, -3.0e38, 2.5e38], vec![7.0 * u, -u, f32::from_bits(f32::MIN_POSITIVE.to_bits() - 1)], vec![1.0, -2.0, 0.5]];
+        for acc in ACCS.iter() {
+            for d in [[1.0f32, 1.0, 1.0], [2.0, 0.5, 1.0], [-1.0, 1.0, 3.0]] {
+                let net = NetSpec { input: Shape::Single(3), builds: vec![Build::Layer(diag(&d)), Build::Layer(diag(&[1.0, 1.0, 1.0])), Build::Connect(0, 1)],
+                    skipacc: acc.to_string(), loopacc: "mean".into(), opt: None, obj: "mse".into(), clamp: None };
+                for x in &inputs {
+                    g.push(format!("net {} predict {}", net.token(), qt(&Tensor::single(x.clone()))), Tol::Exact, &format!("scale-ends/{}", acc), true);
+                }
+            }
+        }
+    }
     // different element counts are refused
     let (mut net, _) = skip_net(g, &cfg, 2, 3, false);
     net.builds.push(Build::Layer(dense_spec(g, &cfg, 3, 2, "tanh", true)));
@@ -946,6 +1066,64 @@ pub fn c17(g: &mut Gen) {
             net.loopacc = acc.to_string();
             let x = input_for(g, &net.input);
             g.push(format!("net {} predict {}", net.token(), qt(&x)), Tol::Tight, &format!("zoo/loop/{}", acc), true);
+        }
+    }
+    // tiny activations: successive outputs of the range differ by far less than 1e-5 and still are different values
+    for acc in ACCS.iter() {
+        for inskips in [false, true] {
+            for iters in 2..=3usize {
+                if !g.ctx.thorough() && iters == 3 && inskips { continue; }
+                let cl = ArchCfg { wscale: 0.9, acts: vec!["linear"], ..ArchCfg::small() };
+                let builds = vec![Build::Layer(dense_spec(g, &cl, 3, 3, "linear", false)), Build::Layer(dense_spec(g, &cl, 3, 3, "relu", false)),
+                    Build::Layer(dense_spec(g, &cl, 3, 3, "linear", false)), Build::Layer(dense_spec(g, &cl, 3, 2, "linear", false)),
+                    Build::Loopback { outof: 2, into: 1, iterations: iters, scale: "inv".into(), inskips }];
+                let net = NetSpec { input: Shape::Single(3), builds, skipacc: "add".into(), loopacc: acc.to_string(), opt: None, obj: "mse".into(), clamp: None };
+                for scale in [1e-6f32, 1e-9, 1.0] {
+                    let x = input_for(g, &net.input);
+                    let xs: Vec<f32> = crate::ops::tensor::flat_any(&x).iter().map(|v| v * scale).collect();
+                    g.push(format!("net {} predict {}", net.token(), qt(&Tensor::single(xs))), Tol::Exact, &format!("tiny-scale/k{}/{}", iters, acc), true);
+                }
+            }
+        }
+    }
+    // ranges of several spatial layers whose interior shape differs from the shape at the range's ends: more filters in the
+    // middle (1 -> 2 -> 1), and a different arrangement of the same count (1x4x4 -> 4x2x2 -> 1x4x4)
+    for acc in ACCS.iter() {
+        for inskips in [false, true] {
+            let wide_middle = NetSpec { input: Shape::Triple(1, 3, 4), builds: vec![
+                Build::Layer(InnerSpec::Conv { filters: 2, act: "tanh".into(), k: (3, 3), s: (1, 1), p: (1, 1), d: (1, 1), dropout: None,
+                    ks: (0..2).map(|_| weights(g, &Shape::Triple(1, 3, 3), 0.3)).collect() }),
+                Build::Layer(InnerSpec::Conv { filters: 1, act: "tanh".into(), k: (3, 3), s: (1, 1), p: (1, 1), d: (1, 1), dropout: None,
+                    ks: vec![weights(g, &Shape::Triple(2, 3, 3), 0.3)] }),
+                Build::Layer(dense_spec(g, &cfg, 12, 2, "tanh", true)),
+                Build::Loopback { outof: 1, into: 0, iterations: 1 + inskips as usize, scale: "inv".into(), inskips }],
+                skipacc: "add".into(), loopacc: acc.to_string(), opt: None, obj: "mse".into(), clamp: None };
+            let rearranged = NetSpec { input: Shape::Triple(1, 4, 4), builds: vec![
+                Build::Layer(InnerSpec::Conv { filters: 4, act: "tanh".into(), k: (2, 2), s: (2, 2), p: (0, 0), d: (1, 1), dropout: None,
+                    ks: (0..4).map(|_| weights(g, &Shape::Triple(1, 2, 2), 0.4)).collect() }),
+                Build::Layer(InnerSpec::Deconv { filters: 1, act: "tanh".into(), k: (2, 2), s: (2, 2), p: (0, 0), dropout: None,
+                    ks: vec![weights(g, &Shape::Triple(4, 2, 2), 0.4)] }),
+                Build::Layer(dense_spec(g, &cfg, 16, 2, "tanh", true)),
+                Build::Loopback { outof: 1, into: 0, iterations: 2 - inskips as usize, scale: "inv".into(), inskips }],
+                skipacc: "add".into(), loopacc: acc.to_string(), opt: None, obj: "mse".into(), clamp: None };
+            for (ni, net) in [wide_middle, rearranged].iter().enumerate() {
+                let x = input_for(g, &net.input);
+                g.push(format!("net {} predict {}", net.token(), qt(&x)), Tol::Tight, &format!("interior-shape{}/{}/inskips{}", ni, acc, inskips as u8), true);
+            }
+        }
+    }
+    // two loop connections in one network (each keeps its own bookkeeping), ranges of different lengths
+    for acc in ACCS.iter() {
+        for inskips in [false, true] {
+            for (l1, l2) in [((1usize, 0usize, 2usize), (3usize, 2usize, 1usize)), ((0, 0, 1), (3, 1, 2)), ((2, 0, 1), (3, 3, 3))] {
+                if !g.ctx.thorough() && inskips && l1.0 == 0 { continue; }
+                let (mut net, _) = skip_net(g, &cfg, 4, 3, false);
+                net.builds.push(Build::Loopback { outof: l1.0, into: l1.1, iterations: l1.2, scale: "inv".into(), inskips });
+                net.builds.push(Build::Loopback { outof: l2.0, into: l2.1, iterations: l2.2, scale: "inv".into(), inskips });
+                net.loopacc = acc.to_string();
+                let x = input_for(g, &net.input);
+                g.push(format!("net {} predict {}", net.token(), qt(&x)), Tol::Tight, &format!("two-loops/{}/inskips{}", acc, inskips as u8), true);
+            }
         }
     }
     // validation of indices and shapes
